@@ -151,3 +151,7 @@ static void class_header_and_ctor(const int in_order)
 }
 void h_class_header_and_ctor_deep_first(void) { class_header_and_ctor(1); }
 void h_class_header_and_ctor_shallow_first(void) { class_header_and_ctor(0); }
+/* must-fail canary (vacuity guard): with the same preconditions the generator is reached and prints the header and the signature, so the
+ * claim "nothing was recorded" has to be refuted; a contradictory assumption or an empty transcript model would let it verify */
+void h_canary_transcript_nonempty(void) { class_header_and_ctor(1); __CPROVER_assert(g_nev == 0, "canary: no print call was recorded (must be refuted)"); }
+void h_canary_keyword(void) { static char w[] = "x"; __CPROVER_assert(is_python_keyword(w), "canary: an ordinary identifier is a keyword (must be refuted)"); }
